@@ -19,7 +19,12 @@ type c14Case struct {
 	Argv []string `json:"argv"`
 	Line string   `json:"line"`
 	Bare bool     `json:"words_unquoted_where_possible,omitempty"`
+	// Tail: raw text appended to the line (after a blank) that leaves a quote or an escape open: the line has no
+	// reading as a list of words and must be rejected, whatever complete rule precedes the broken word
+	Tail string `json:"broken_tail,omitempty"`
 }
+
+var c14Tails = []string{"'oops", "\"x y", "\\", "'-k key", "-k 'foo", "\"-F auid>=1000 -k users", "-F 'uid=0", "x\\", "'"}
 
 var c14Ops = []string{"<=", ">=", "&=", "!=", "=", "<", ">", "&"}
 
@@ -299,6 +304,11 @@ func c14One(c *mon.Ctx, k *c14Case) {
 	}
 	k.Line = strings.Join(q, " ")
 	exp := c14Interpret(k.Argv)
+	if k.Tail != "" {
+		k.Line += " " + k.Tail
+		exp = c14Expect{Reject: "unterminated quote or escape at the end of the line"}
+		c.Add("lines_with_unterminated_quote", 1)
+	}
 	var r rule.Rule
 	var err error
 	if p, st := mon.Try(func() { r, err = flags.Parse(k.Line) }); p != nil {
@@ -501,7 +511,7 @@ func c14Gen(r *mon.Rand) []string {
 func init() {
 	register(&mon.CheckSpec{
 		ID: "C14", Level: "exploration",
-		Rule: "cases = argv lists built from a grammar (-a/-A in both orders and with bad parts, -F with valid fields and junk before the field name, every operator and operator look-alike, values containing spaces, tabs, newlines, '=', operator characters, quotes, backslashes; -C; -S/-k comma lists; -p; -w; -D; repeated single-valued flags; stray positional words, '-', '--', unknown flags at every position; delete/watch/syscall flags mixed two and three ways; a flag missing its argument) joined with the harness's own POSIX single-quote quoting, so the argv is known independently of the library's tokenizer. The harness interprets the argv itself: either 'must be rejected' (with the reason) or the exact rule a faithful parse returns. distinct_nontrivial = distinct lines that contain a quoted argument, a stray word, a repeated flag or a filter whose value holds an operator character or blank.",
+		Rule: "cases = argv lists built from a grammar (-a/-A in both orders and with bad parts, -F with valid fields and junk before the field name, every operator and operator look-alike, values containing spaces, tabs, newlines, '=', operator characters, quotes, backslashes; -C; -S/-k comma lists; -p; -w; -D; repeated single-valued flags; stray positional words, '-', '--', unknown flags at every position; delete/watch/syscall flags mixed two and three ways; a flag missing its argument; a broken last word that leaves a quote or a backslash escape open) joined with the harness's own POSIX single-quote quoting, so the argv is known independently of the library's tokenizer. The harness interprets the argv itself: either 'must be rejected' (with the reason) or the exact rule a faithful parse returns. distinct_nontrivial = distinct lines that contain a quoted argument, a stray word, a repeated flag or a filter whose value holds an operator character or blank.",
 		Assumptions: []string{
 			"an error result is always acceptable (statement: error OR faithful rule); the accepted fraction is reported and a run that accepts nothing is inconclusive",
 			"blanks around list items and between a filter's field name and its operator are compared trimmed (the value of a filter is compared exactly); a repeated single-valued flag with identical values is accepted",
@@ -515,6 +525,9 @@ func init() {
 			c.ForEach(n, func(w, i int) {
 				r := c.Rand(1, uint64(i))
 				k := &c14Case{Argv: c14Gen(r), Bare: r.Bool()}
+				if fr := r.Fork(3); fr.Chance(1, 25) {
+					k.Tail = mon.Pick(fr, c14Tails)
+				}
 				c14One(c, k)
 				ev.Add(1)
 				if strings.ContainsAny(k.Line, "'") {
